@@ -26,7 +26,7 @@ ASSUMPTIONS = [
     "re-appending an existing member of a link list may keep or move its position",
 ]
 
-ENABLED = (ops.CREATE * 2 + ops.SETTERS * 2 + ops.LINKS + ops.DATA + ops.DELETE + ["del"] * 6 + ["force_ts"] * 5 + ["flush"] + ["reopen"] * 8 + ["overwrite"] * 10 + ["relink"] * 12 + ["multi_append"] * 12)
+ENABLED = (ops.CREATE * 2 + ops.SETTERS * 2 + ops.LINKS + ops.DATA + ops.FRAME + ["frame_grow"] * 4 + ops.DELETE + ["del"] * 6 + ["force_ts"] * 5 + ["flush"] + ["reopen"] * 8 + ["overwrite"] * 10 + ["relink"] * 12 + ["multi_append"] * 12)
 
 
 def keyify(path):
@@ -81,7 +81,8 @@ def model_check(it, W, ctx, case, where):
             if attr not in n:
                 continue
             want = walk.cval(val)
-            if attr in ("polynom_coefficients", "extent", "units", "position") and val is None:
+            if attr in ("polynom_coefficients", "extent", "units", "position") and val is None and \
+                    not (e.kind == "frame" and attr == "units"):          # a frame without units reads None
                 want = []
             if attr in ("position", "extent", "polynom_coefficients") and val is not None:
                 want = [walk.cfloat(x) for x in val]
@@ -89,7 +90,11 @@ def model_check(it, W, ctx, case, where):
                 want = walk.cfloat(val)
             if attr in ("unit",) and val == "":
                 want = None
-            if n[attr] != want and not _numeq(n[attr], want):
+            got = n[attr]
+            if e.kind == "frame" and attr == "units" and isinstance(got, dict) and "values" in got:
+                got = got["values"]           # the frame's units come back as an array of text (None rendered as text)
+                want = None if want is None else ["None" if x is None else x for x in want]
+            if got != want and not _numeq(got, want):
                 v("attr/%s.%s" % (e.kind, attr), {"entity": e.path(), "want": want, "got": n[attr]})
         if e.kind == "array" and isinstance(n.get("dimensions"), list):
             # numeric descriptor attributes: the value written last (int or float) is the value read
